@@ -180,6 +180,79 @@ def closed_delivery_sweep(debug, how):
     return simnet.run(go)
 
 
+def overlapping_disconnect_probe(cancel_which, ack, gap):
+    """Two disconnect() calls on one established connection overlap (the second starts in the same turn, or `gap` loop turns later);
+    one of them (or none) is cancelled by its caller while both wait for the device; then the device acknowledges (or stays silent
+    until the 10 s limit). A disconnect() that ran to its end - returned or raised - has closed the connection: transport and socket
+    closed, no timer armed, nothing more written in the next minute, a later state message reaches nobody.
+    Returns (outcomes of the two calls, list of what is still alive)."""
+    import asyncio
+    from vlib import conntrace, simnet
+
+    async def go(loop):
+        from aioesphomeapi import api_pb2 as pb
+        from aioesphomeapi.connection import APIConnection, ConnectionParams, ConnectionState as S
+        from aioesphomeapi.zeroconf import ZeroconfManager
+        net = simnet.Net(loop)
+        params = ConnectionParams(addresses=["10.0.0.1"], port=6053, password=None, client_info="v", keepalive=20.0,
+                                  zeroconf_manager=ZeroconfManager(), noise_psk=None, expected_name=None)
+        stops, seen = [], []
+        conn = APIConnection(params, lambda e: stops.append(e), False, None)
+        with net.patched():
+            await conn.start_connection()
+            task = asyncio.ensure_future(conn.finish_connection(login=False))
+            await simnet.drain(loop)
+            tr = net.transports[-1]
+            tr.feed(simnet.plain_frame(2, b"\x08\x01\x10\x0a"))
+            await simnet.drain(loop)
+            await task
+            conn.add_message_callback(lambda m: seen.append(m.key), (pb.SensorStateResponse,))
+            d1 = asyncio.ensure_future(conn.disconnect())
+            for _ in range(gap):
+                await asyncio.sleep(0)
+            d2 = asyncio.ensure_future(conn.disconnect())
+            await simnet.drain(loop)
+            if cancel_which in (1, 2):
+                (d1 if cancel_which == 1 else d2).cancel()
+                await simnet.drain(loop)
+            if ack:
+                tr.feed(simnet.plain_msg(pb.DisconnectResponse()))
+                await simnet.drain(loop)
+            else:
+                await simnet.advance(loop, by=11.0)
+            outs = []
+            for d in (d1, d2):
+                outs.append("pending" if not d.done() else "C" if d.cancelled() else "ok" if d.exception() is None else conntrace.exc_name(d.exception()))
+            alive = []
+            if any(o not in ("C", "pending") for o in outs):
+                if conn.connection_state is not S.CLOSED:
+                    alive.append("state " + conn.connection_state.name)
+                if not tr.closing:
+                    alive.append("transport open")
+                if net.sockets and not all(getattr(sk, "closed", True) for sk in net.sockets):
+                    alive.append("socket open")
+                timers = [name for _, name in loop.armed_timers()]
+                if timers:
+                    alive.append("timers " + ",".join(timers))
+                n_w = len(tr.writes)
+                if not tr.closing:
+                    tr.feed(simnet.plain_msg(pb.SensorStateResponse(key=5, state=1.0)))
+                await simnet.advance(loop, by=61.0)
+                if len(tr.writes) != n_w:
+                    alive.append(f"{len(tr.writes) - n_w} more write(s)")
+                if seen:
+                    alive.append("message delivered to a subscriber")
+                if len(stops) != 1:
+                    alive.append(f"stop callback invoked {len(stops)} times")
+            for d in (d1, d2):
+                if not d.done():
+                    d.cancel()
+            conn.force_disconnect()
+            await simnet.drain(loop)
+        return outs, alive
+    return simnet.run(go)
+
+
 def run(rep, tier, seed):
     connfamily.run(rep, tier, seed, "C08", VFILE, RULE)
     for debug in (False, True):
@@ -194,6 +267,16 @@ def run(rep, tier, seed):
             elif late:
                 rep.violation("C08/delivery-after-close", f"established session with a subscriber on every message type, {how} followed in the same read by one frame of "
                               f"every type (debug logging {'on' if debug else 'off'}): message type(s) {late[:8]} were still delivered after the closing event", replay)
+    for cancel_which in (0, 1, 2):
+        for ack in (True, False):
+            for gap in (0, 1, 3):
+                outs, alive = overlapping_disconnect_probe(cancel_which, ack, gap)
+                replay = {"kind": "overlapping-disconnect", "cancel": cancel_which, "ack": ack, "gap": gap}
+                rep.case(("overlapping-disconnect", cancel_which, ack, gap), True, sample={"probe": replay, "outcomes": outs, "alive": alive})
+                rep.bump("probe:overlapping-disconnect")
+                if alive or all(o == "pending" for o in outs):
+                    rep.violation("C08/not-released", f"two overlapping disconnect() calls (second {gap} turn(s) later), {['neither', 'the first', 'the second'][cancel_which]} cancelled by its caller, "
+                                  f"device {'acknowledges' if ack else 'stays silent'}: the calls ended {outs}, yet still alive: {alive or 'both calls pending'}", replay)
     for noise, stage in ((True, "hello"), (True, "handshake"), (False, "hello")):
         for exc_kind in ("reset", "timedout", "pipe", "none"):
             out, closed, timers = handshake_loss_probe(noise, stage, exc_kind)
@@ -237,6 +320,12 @@ def replay(path):
         common.setup_impl_path()
         print(handshake_loss_probe(d["noise"], d["stage"], d["exc"]))
         return 0
+    if d.get("kind") == "overlapping-disconnect":
+        from vlib import common
+        common.setup_impl_path()
+        outs, alive = overlapping_disconnect_probe(d["cancel"], d["ack"], d["gap"])
+        print(outs, alive)
+        return 1 if alive else 0
     if d.get("kind") == "resolve-close":
         from vlib import common
         common.setup_impl_path()
